@@ -17,3 +17,5 @@ ASSUMPTIONS = [
     "vectorised numpy conversion functions are verified for a generic element (parameters typed real): they use elementwise operations only; any indexing/reduction would make them UNDECIDED",
 ]
 EXPLANATION = "pointwise real-arithmetic contracts on every conversion function"
+LEVEL_TEXT = 'every conversion function (_lonlat_rad_to_xyz, both _normalize_xyz, _xyz_to_lonlat_rad/_scalar/_no_norm/_deg) proved pointwise over the reals: unit length, direction preserved, pole snap, ranges; populate/provenance/access-order behaviour is a bounded stand-in (103 provenance scenarios x access orders)'
+LEVEL_NOTE = 'A-REAL (float64 as reals), A-TRIG axioms for sin/cos/asin/atan2/sqrt/fmod; vectorised functions verified for a generic element'
